@@ -22,7 +22,7 @@ def SameReg (w w' : World) : Prop :=
     (w'.proc x).status = (w.proc x).status
 
 theorem PInv.congrReg {w w' : World} (hp : PInv ex fr w) (hc : SameReg w w')
-    (hfb : ∀ x, (w'.proc x).blocked ≠ fr x → procAw w x = [] ∧ evAw w x = [])
+    (hfb : ∀ x, ¬ ex x → (w'.proc x).blocked ≠ fr x → procAw w x = [] ∧ evAw w x = [])
     (hw : w'.evWaiters = w.evWaiters)
     (he : ∀ e' ∈ w'.ev.pending, e'.item.a = aProc ∨ e'.item.a = aEvent → ∃ e ∈ w.ev.pending, e.key = e'.key ∧ e.item = e'.item)
     (hei : EvInv w'.ev) : PInv ex fr w' where
@@ -30,7 +30,7 @@ theorem PInv.congrReg {w w' : World} (hp : PInv ex fr w) (hc : SameReg w w')
   ap := fun p => by rw [(hc p).1]; exact hp.ap p
   ae := fun p => by rw [(hc p).2.1]; exact hp.ae p
   ar := fun p h => by rw [(hc p).1, (hc p).2.1]; exact hp.ar p (by rw [← (hc p).2.2.2]; exact h)
-  fb := fun p h => by rw [(hc p).1, (hc p).2.1]; exact hfb p h
+  fb := fun p hx h => by rw [(hc p).1, (hc p).2.1]; exact hfb p hx h
   w1 := fun p q h hx => by
     rw [mem_awaits_proc, (hc q).1, ← mem_awaits_proc]; exact hp.w1 p q (by rw [← (hc p).2.2.1]; exact h) hx
   wn := fun p => by rw [(hc p).2.2.1]; exact hp.wn p
@@ -66,7 +66,7 @@ theorem PInv.congrReg {w w' : World} (hp : PInv ex fr w) (hc : SameReg w w')
 /-- changing the logical frame of processes that have no process / event registration -/
 theorem PInv.setFr {w : World} (hp : PInv ex fr w) (fr' : Pid → Option Frame)
     (hd : ∀ x, fr' x ≠ fr x → procAw w x = [] ∧ evAw w x = [])
-    (hb : ∀ x, (w.proc x).blocked ≠ fr' x → procAw w x = [] ∧ evAw w x = []) : PInv ex fr' w :=
+    (hb : ∀ x, ¬ ex x → (w.proc x).blocked ≠ fr' x → procAw w x = [] ∧ evAw w x = []) : PInv ex fr' w :=
   { hp with
     ap := fun x => by
       by_cases h : fr' x = fr x
@@ -79,8 +79,8 @@ theorem PInv.setFr {w : World} (hp : PInv ex fr w) (fr' : Pid → Option Frame)
     fb := hb }
 
 /-- between activations the logical frames are the recorded ones -/
-theorem PInv.toBlocked {w : World} (hp : PInv ex fr w) : PInv ex (blockedOf w) w :=
-  hp.setFr (blockedOf w) (fun x h => hp.fb x h) (fun x h => absurd rfl h)
+theorem PInv.toBlocked {w : World} (hp : PInv ex fr w) (hne : ∀ x, ¬ ex x) : PInv ex (blockedOf w) w :=
+  hp.setFr (blockedOf w) (fun x h => hp.fb x (hne x) h) (fun x _ h => absurd rfl h)
 
 /-- rewriting the awaits of one process without touching its process / event registrations -/
 theorem PInv.mapAwaits {w : World} (hp : PInv ex fr w) (p : Pid) (g : List Await → List Await)
@@ -249,7 +249,7 @@ theorem PInv.modBlocked {w : World} (hp : PInv ex fr w) (p : Pid) (b : Option Fr
   intro x
   rw [modProc_proc]
   split
-  · rename_i h; rw [h.1]; exact fun _ => hnil
+  · rename_i h; rw [h.1]; exact fun _ _ => hnil
   · exact hp.fb x
 
 /-- suspending in a frame: harmless when the process has no process / event registration -/
@@ -269,9 +269,9 @@ theorem PInv.block_fst {w : World} (hp : PInv ex fr w) (p : Pid) (f : Frame) (hf
     by_cases hxp : x = p
     · subst hxp; rw [(hsame x).1, (hsame x).2]; exact hnil
     · rw [setFrame_ne _ _ hxp] at hx; exact absurd rfl hx
-  · intro x hx
+  · intro x hxx hx
     by_cases hxp : x = p
     · subst hxp; rw [(hsame x).1, (hsame x).2]; exact hnil
-    · rw [setFrame_ne _ _ hxp] at hx; exact h1.fb x hx
+    · rw [setFrame_ne _ _ hxp] at hx; exact h1.fb x hxx hx
 
 end CimbaModel.Sim.S3
